@@ -166,6 +166,11 @@ impl Submissions {
         log::trace!(waker:?; "adding future waiting on submission slot");
         let shared = &*self.shared;
         lock(&shared.blocked_futures).push(waker);
+        // The Ring can have submitted the queued submissions (and gone
+        // through the blocked futures) between the moment the caller found the
+        // queue full and us adding the waker above. Nothing would wake the
+        // future in that case, so check for available slots again.
+        shared.wake_blocked_futures();
     }
 
     pub(crate) fn shared(&self) -> &Shared {
